@@ -422,6 +422,14 @@ def check_C11(ctx):
             inputs.append(record_bytes(o, signer, rng.choice(gens.SEQ_POOL), pl2)[0]); labels.append("both_keys_signed_by_" + signer.scheme)
         for lab, b in gens.mislabelled_key_entries(rng, o):
             inputs.append(b); labels.append(lab)
+        # a record of this group's scheme carrying an entry under the other scheme's name that is NOT a valid key
+        # (empty, short, garbage, off-curve): the single-scheme type and CombinedKey both go by this group's key
+        oentry = b"ed25519" if gname == "secp" else b"secp256k1"
+        for stray in (b"", b"xyz", gens.rbytes(rng, 33 if oentry == b"secp256k1" else 32), bytes([2]) + b"\xff" * 32, b"\x04" + b"\x01" * 64, gens.rbytes(rng, 31)):
+            if oentry == b"secp256k1" and o.q("secp_pk k " + hx(stray)).split()[0] == "ok":
+                continue
+            pl = dict(gens.base_pairs(rng, both_key)); pl[oentry] = rlp_str(stray)
+            inputs.append(record_bytes(o, both_key, rng.choice([1, 200, 70000]), sorted(pl.items()))[0]); labels.append("invalid_stray_entry_of_other_scheme")
         cases = [["decode " + hx(b)] for b in inputs]
         per_kt = {}
         for kt in kts + ([other_kt] if True else []):
@@ -899,6 +907,11 @@ def check_history_property(ctx):
             recs_d, inputs_d, labels_d = decode_inputs(ctx, gk, ctx.scale(4, 40), 0, ctx.scale(3, 30), ctx.scale(5, 100), 0)
             cases += [["decode " + hx(b)] for b in inputs_d]
         if pid == "C10":
+            # keys whose (uncompressed) public key begins with a SEC1 tag byte or another special byte
+            sk = gens.special_first_byte_keys(ctx.oracle, gk)
+            for k in (sk if not ctx.quick else ctx.rng.sample(sk, min(len(sk), 6)) + [x for x in sk if x.secret in ((45).to_bytes(32, "big"), (242).to_bytes(32, "big"))]):
+                pl = sorted({b"id": rlp_str(b"v4"), k.entry: rlp_str(k.pub), b"udp": rlp_uint(30303)}.items())
+                cases.append(["key a " + k.spec, "build a 0 1 udp4/30303", "op set_tcp4 a 0 80", "decode " + hx(record_bytes(ctx.oracle, k, 9, pl)[0])])
             vr = gens.valid_records(ctx.rng, ctx.oracle, gk, ctx.scale(6, 60))
             for r in vr:
                 cases.append(["decode " + hx(r["bytes"])])
@@ -1066,6 +1079,7 @@ def check_C15(ctx):
         out = []
         shows = {}
         pairs = {}
+        recoded = set()
         cur = None
         for i, (cmd, l) in enumerate(zip(case, il)):
             t = cmd.split()
@@ -1076,6 +1090,7 @@ def check_C15(ctx):
                 shows[int(t[1])] = cur
             if t[0] == "recode" and first(h) == "recoded" and cur is not None:
                 shows[int(t[1])] = cur
+                recoded.add(int(t[1]))
             if t[0] == "pair" and first(h) == "pair":
                 a, b = int(t[1]), int(t[2])
                 pairs[(a, b)] = (i, f)
@@ -1084,7 +1099,7 @@ def check_C15(ctx):
                     continue
                 if f["eqc"] != "1":
                     out.append((i, "a record differs from its clone"))
-                if ({a, b} == {6, 7} or {a, b} == {9, 10}) and f["eq"] != "1":
+                if ({a, b} == {6, 7} or {a, b} == {9, 10} or ((a in recoded) != (b in recoded) and fa["enc"] == fb["enc"])) and f["eq"] != "1":
                     out.append((i, "a record differs from its decode-after-encode image"))
                 if a == b and f["eq"] != "1":
                     out.append((i, "equality is not reflexive"))
@@ -1141,6 +1156,21 @@ def check_C15(ctx):
                         if ctx.rng.random() < 0.3:
                             lines.append("pair %d %d" % (j, i))
             cases.append(lines + tail)
+        # records whose pairs are a leading run of another record's pairs (same seq, same key): content differs
+        a2 = gens.secrets(ctx.rng, ctx.oracle, kt, 1)[0]
+        ip = gens.rbytes(ctx.rng, 4).hex()
+        cases.append(["key a " + a2.spec, "build a 0 5 ip4/" + ip, "save 0", "build a 0 5 ip4/%s udp4/30303" % ip, "save 1",
+                      "build a 0 5 ip4/%s udp4/30303 val/%s/b:%s" % (ip, hx(b"zzz"), hx(b"q")), "save 2", "build a 0 5 ip4/%s tcp4/80 udp4/30303" % ip, "save 3",
+                      "pair 0 1", "pair 1 0", "pair 1 2", "pair 2 1", "pair 0 2", "pair 1 3", "pair 3 1", "pair 0 3", "pair 2 2"])
+        # re-keying through every path that writes the new key's entry itself, then the decode-after-encode image
+        ks = [k for k in gens.secrets(ctx.rng, ctx.oracle, kt, 6)]
+        same = [k for k in ks[1:] if k.scheme == ks[0].scheme]
+        if same:
+            ka, kb = ks[0], same[0]
+            for op in ("op set_public_key b 0 b", "op insert b 0 %s b:%s" % (hx(kb.entry), hx(kb.pub)), "op remove_insert b 0 none %s:%s" % (hx(kb.entry), hx(kb.pub)),
+                       "op insert_raw b 0 %s %s" % (hx(kb.entry), hx(rlp_str(kb.pub))), "op set_udp4 b 0 7"):
+                cases.append(["key a " + ka.spec, "key b " + kb.spec, "build a 0 1 udp4/30303", op, "save 0", "recode 1", "pair 0 1", "pair 1 0",
+                              "op set_tcp4 b 0 9", "save 2", "recode 3", "pair 2 3", "pair 3 2"])
         # content twins by concatenation: {k1: v1, k3: v2} against {k1 ++ v1 ++ k3: v2} — the same bytes once the framing of
         # keys is dropped, different pairs (a comparison over an unframed stream of entries takes them for equal)
         a = gens.secrets(ctx.rng, ctx.oracle, kt, 1)[0]
@@ -1174,17 +1204,18 @@ def check_C16(ctx):
             add("nodeid deser " + hx(v), "deser")
     # 64 characters of which one or more are "almost" hex digits: every byte class next to the digit ranges, control
     # characters that case folding (| 0x20, & 0xdf, ^ 0x20) maps onto digits or letters, and a few non-ASCII ones
-    near = [0x10, 0x11, 0x15, 0x19, 0x1a, 0x00, 0x01, 0x06, 0x2f, 0x3a, 0x40, 0x47, 0x60, 0x67, 0x21, 0x26, 0x41 ^ 0x80, 0x7f, 0x5f, 0x20]
+    near = [0x2b, 0x2d, 0x5f, 0x2e, 0x10, 0x11, 0x15, 0x19, 0x1a, 0x00, 0x01, 0x06, 0x2f, 0x3a, 0x40, 0x47, 0x60, 0x67, 0x21, 0x26, 0x41 ^ 0x80, 0x7f, 0x5f, 0x20]
     for ch in near:
-        h = bytearray(gens.rbytes(rng, 32).hex().encode())
-        for pos in rng.sample(range(64), rng.choice([1, 1, 2, 64])):
-            h[pos] = ch
-        try:
-            bytes(h).decode("utf-8")
-        except UnicodeDecodeError:
-            continue
-        add("nodeid deser " + hx(bytes(h)), "deser_near_digit")
-        add("nodeid deser " + hx(b"0x" + bytes(h)), "deser_near_digit")
+        for places in ([0], [63], [2 * rng.randrange(32)], [2 * rng.randrange(32) + 1], rng.sample(range(64), 2), list(range(0, 64, 2)), list(range(64))):
+            h = bytearray(gens.rbytes(rng, 32).hex().encode())
+            for pos in places:
+                h[pos] = ch
+            try:
+                bytes(h).decode("utf-8")
+            except UnicodeDecodeError:
+                continue
+            add("nodeid deser " + hx(bytes(h)), "deser_near_digit")
+            add("nodeid deser " + hx(b"0x" + bytes(h)), "deser_near_digit")
     # equality: ids that differ in one byte, in two bytes by the same xor at word distance, in swapped words/halves
     for _ in range(ctx.scale(12, 400)):
         a = bytearray(gens.rbytes(rng, 32))
